@@ -87,6 +87,12 @@ def generate(rng, tier):
             else: ops.append(rng.choice(["split", "clone", "pr"]))
         ops.append("pr")
         cs.append(Case("hdr %s %s %s %s" % (exp, role, K.hex(), " ".join(ops)), "header-garbage-" + exp + role, no_panic))
+    # well-formed traffic with boundary sizes / opcodes (size 0..3, opcode >= 0x10000, large headers) through every entry point,
+    # with injected reader / writer failures: a peer chooses those values too
+    import hdr_mix
+    for c in hdr_mix.cases(rng, Case, [("v", "s"), ("v", "c"), ("t", "s"), ("t", "c"), ("w", "s"), ("w", "c")], 40 if tier == "quick" else 2000, 80, kind_prefix="wellformed-mixed", faults=0.25, special_key=special_key):
+        c.expect = no_panic
+        cs.append(c)
     # a reader that ends (or fails) exactly after the four bytes of what decrypts to a large-header marker
     for _ in range(n):
         K = special_key(rng)
